@@ -119,7 +119,9 @@ func makeBad(t *core.Tape, sc *Scenario, p *CallPlan, c *ClientCfg, h *HandlerCf
 	switch badness {
 	case 1: // a corrupt compressed request straight into the shared handler
 		alg := supportedBy(h)[t.Choose(1+len(h.Comp), "raw.alg")]
-		payload := ref.EncodeBytesValue(codec, compressible(t, 200))
+		orig := compressible(t, 200)
+		p.badOriginal = orig
+		payload := ref.EncodeBytesValue(codec, orig)
 		comp := compressWith(alg, payload)
 		kind := t.Choose(5, "corrupt.kind")
 		switch kind {
@@ -158,7 +160,9 @@ func makeBad(t *core.Tape, sc *Scenario, p *CallPlan, c *ClientCfg, h *HandlerCf
 		sc.Notes["bad_corrupt_request"]++
 	case 2: // a corrupt compressed response to the shared client
 		alg := append([]string{"gzip"}, c.Accept...)[t.Choose(1+len(c.Accept), "can.alg")]
-		payload := ref.EncodeBytesValue(codec, compressible(t, 200))
+		orig := compressible(t, 200)
+		p.badOriginal = orig
+		payload := ref.EncodeBytesValue(codec, orig)
 		comp := compressWith(alg, payload)
 		kind := t.Choose(4, "corrupt.kind")
 		switch kind {
@@ -309,6 +313,11 @@ func checkC08(w *World, st core.Status, r *RunResult) []Violation {
 				if faultFired == 0 {
 					add("corrupt-request/response-malformed", err.Error())
 				}
+			} else if len(o.H.Recv) == 1 && bytes.Equal(o.H.Recv[0], p.badOriginal) {
+				// the flipped bit was one the format does not care about (deflate
+				// padding): the message still decodes to exactly what was sent
+				r.Probes["benign_corruptions"]++
+				continue
 			} else if resp.Err == nil {
 				add("corrupt-request/answered-with-success", fmt.Sprintf("%s answered OK", p.bad))
 			}
@@ -343,8 +352,21 @@ func checkC08(w *World, st core.Status, r *RunResult) []Violation {
 		case strings.HasPrefix(p.bad, "corrupt-response"):
 			r.Probes["corrupt_responses_checked"]++
 			var ce *connect.Error
+			if o.FinalSet && o.Final == nil && len(o.Recv) == 1 && bytes.Equal(o.Recv[0], p.badOriginal) {
+				r.Probes["benign_corruptions"]++
+				continue
+			}
 			if !o.FinalSet || o.Final == nil {
-				add("corrupt-response/reported-success", fmt.Sprintf("%s: client reported success with %d message(s)", p.bad, len(o.Recv)))
+				diffAt := -1
+				if len(o.Recv) == 1 {
+					for i := range o.Recv[0] {
+						if i >= len(p.badOriginal) || o.Recv[0][i] != p.badOriginal[i] {
+							diffAt = i
+							break
+						}
+					}
+				}
+				add("corrupt-response/reported-success", fmt.Sprintf("%s (encoding %v): client reported success with %d message(s); first difference from the original value at byte %d of %d/%d", p.bad, p.Canned.Header, len(o.Recv), diffAt, len(p.badOriginal), len(o.Recv[0])))
 			} else if !errors.As(o.Final, &ce) || ce.Code() == 0 {
 				add("corrupt-response/uncoded", fmt.Sprintf("%v", o.Final))
 			}
